@@ -394,6 +394,12 @@ func (x *Exec) verifAPI(name string, fn *ssa.Function, args []Value) (Value, boo
 	case "Freeze":
 		// Freeze(mode int): 0 off, 1 writes to existing objects only under a write lock, 2 never
 		x.frozen = int(args[0].(*smt.Term).Val)
+		x.csRule = false
+		if x.frozen == 3 {
+			// mode 3 = mode 1 plus the check-then-act rule (freeze.go)
+			x.frozen = 1
+			x.csRule = true
+		}
 		x.frozenMark = x.nextObj
 		return nil, true
 	case "WriteJunk":
@@ -854,6 +860,9 @@ func (x *Exec) lockOp(v Value, kind string) {
 	}
 	switch kind {
 	case "LK":
+		if !x.holdsWriteLock() {
+			x.csReads = map[*Object]map[int]bool{} // a new critical section starts
+		}
 		x.wlocks[p.Obj]++
 	case "UL":
 		if x.wlocks[p.Obj] > 0 {
